@@ -41,6 +41,8 @@ func profile() gen.Profile {
 		return gen.Response()
 	case "security":
 		return gen.Security()
+	case "views":
+		return gen.Views()
 	case "errors":
 		return gen.Errors()
 	}
